@@ -156,11 +156,11 @@ func factEqual(a, b fact) bool {
 }
 
 type Facts struct {
-	fn     *ssa.Function
-	in     map[*ssa.BasicBlock]state
-	reach  map[*ssa.BasicBlock]bool
-	enums  map[*types.Named][]string // closed enumerations: type -> constant values (ExactString)
-	depth  int
+	fn    *ssa.Function
+	in    map[*ssa.BasicBlock]state
+	reach map[*ssa.BasicBlock]bool
+	enums map[*types.Named][]string // closed enumerations: type -> constant values (ExactString)
+	depth int
 	moves map[widenKey]int
 }
 
